@@ -28,6 +28,17 @@ pub fn codec_block(out: &mut String, b: &str) {
 }
 
 pub fn gen_case(r: &mut Rng, out: &mut String) {
+    if r.chance(1, 4) {
+        // the value comes from ANY public producer (the twelve producers of the C04 profile: shuffled inserts, ranges, carving,
+        // sorted appends incl. one refused at its very end, trims, set algebra in every form, multi-operand operations,
+        // bit-slice import, decoding, clone_from): the bytes must be the standard encoding of its set whichever way it was made
+        let t = super::c04::target(r);
+        let which = r.below(super::c04::N_PRODUCERS);
+        super::c04::produce(r, out, "b0", &t, which);
+        writeln!(out, "dump b0").unwrap();
+        codec_block(out, "b0");
+        return;
+    }
     match r.below(10) {
         0..=5 => {
             // a mutation history (with the 4096 steering of the C01 profile), then the codec block
